@@ -36,7 +36,12 @@ Definition XZ (names : list bytes) : expent := X None (map (fun n => (n, VI 0)) 
 
 Inductive case :=
 | Scrape (paths : option (list entity)) (fwd : list (bytes * option (list entity))) (srv : list (kind * listing))
-         (q : query) (body : bytes) (covered : list bytes) (expected : list expent).
+         (q : query) (body : bytes) (covered : list bytes) (expected : list expent)
+(* several scrapes of ONE Metrics instance (same servers, same entities), interleaved: `sched` lists the request
+   (index into reqs) resumed at each step; a resumed request runs up to its next list call on a server. Per request:
+   its query, the body it received, the samples the property calls for. *)
+| Overlap (paths : option (list entity)) (fwd : list (bytes * option (list entity))) (srv : list (kind * listing))
+          (covered : list bytes) (reqs : list (query * bytes * list expent)) (sched : list Z).
 
 Fixpoint labels_eqb (a b : list label) : bool :=
   match a, b with
@@ -56,6 +61,10 @@ Definition mismatch (c : case) : bool :=
   match c with
   | Scrape paths fwd srv q body _ _ =>
       let st := mk_state paths fwd srv in negb (beqb body (body_of st q)) || negb (wf_stateb st)
+  | Overlap paths fwd srv _ reqs sched =>
+      let st := mk_state paths fwd srv in
+      negb (wf_stateb st)
+      || existsb (fun r => negb (beqb (snd (fst r)) (body_of st (fst (fst r))))) reqs
   end.
 
 Definition val_tok (v : val) : bytes := match v with VI z => format_int z | VT t => t end.
@@ -67,16 +76,20 @@ Definition matches (e : bytes * option (list label) * bytes) (s : sample) : bool
 (* the property: the body is valid exposition text; every expected sample is present with exactly the entity's
    label values and value; no other sample exists under the covered metric names (nothing injected, nothing of an
    entity that does not pass the filter, nothing twice) *)
+Definition body_fail (body : bytes) (covered : list bytes) (expected : list expent) : bool :=
+  match parse body with
+  | None => true
+  | Some ss =>
+      let fe := flat_expected expected in
+      let cov := filter (fun s => existsb (beqb (s_name s)) covered) ss in
+      negb (forallb (fun e => existsb (matches e) ss) fe
+            && forallb (fun s => existsb (fun e => matches e s) fe) cov
+            && (Z.of_nat (length cov) =? Z.of_nat (length fe)))
+  end.
+
+(* overlapping scrapes: the same judgement on EACH response, whatever the other requests did meanwhile *)
 Definition spec_fail (c : case) : bool :=
   match c with
-  | Scrape _ _ _ _ body covered expected =>
-      match parse body with
-      | None => true
-      | Some ss =>
-          let fe := flat_expected expected in
-          let cov := filter (fun s => existsb (beqb (s_name s)) covered) ss in
-          negb (forallb (fun e => existsb (matches e) ss) fe
-                && forallb (fun s => existsb (fun e => matches e s) fe) cov
-                && (Z.of_nat (length cov) =? Z.of_nat (length fe)))
-      end
+  | Scrape _ _ _ _ body covered expected => body_fail body covered expected
+  | Overlap _ _ _ covered reqs _ => existsb (fun r => body_fail (snd (fst r)) covered (snd r)) reqs
   end.
